@@ -63,6 +63,9 @@ type jobSpec struct {
 	// Handler: readers also call the search handler's entry points without harness locking, and a
 	// parent permanode with camliMember claims is delivered (EdgesTo)
 	Handler bool `json:"handler,omitempty"`
+	// Tail: after the main phase the doomed permanodes are delivered delete claim first, one after
+	// the other, while the sorted permanode listings are read (index_tail.go)
+	Tail bool `json:"tail,omitempty"`
 }
 
 type violRec struct {
@@ -116,6 +119,9 @@ type call struct {
 	Present []bool   `json:"present,omitempty"`
 	Enum    []string `json:"enum,omitempty"`
 	bad     []violRec
+	// lead (cachemiss mode): a fetch of an own blob that only the origin holds; the next call of the
+	// script (the remove of the same blob) follows it directly
+	lead bool
 }
 
 func compactSpec(s *sto.Spec) string {
@@ -179,6 +185,43 @@ type storeRun struct {
 	clk   *clock
 	mu    sync.Mutex // guards res.Viols from client goroutines
 	label string
+	miss  *missCtl // cachemiss mode
+}
+
+// missCtl is the directed schedule of the cachemiss mode (proxycache): the write that fills the
+// cache with an own blob on behalf of its owner's "lead" fetch is held at the cache store's
+// ReceiveBlob boundary until the owner's next call - the remove of that blob - has returned, or
+// a bounded wait is over (a fill that is part of the fetch itself always ends the wait that way:
+// the owner cannot call remove before its fetch returned).  Never a verdict.
+type missCtl struct {
+	st                  map[string]*missState // own blob ref -> state
+	held, landedAfterRm atomic.Int64
+}
+
+type missState struct {
+	lead    atomic.Bool  // the owner's lead fetch was issued, its remove has not returned yet
+	removes atomic.Int64 // removes of this blob by its owner that returned
+}
+
+const missHold = 4 * time.Millisecond
+
+func (m *missCtl) yield(c inject.Call) {
+	if c.Layer != "pc-cache" || c.Op != "ReceiveBlob" {
+		return
+	}
+	st := m.st[c.Arg]
+	if st == nil || !st.lead.Load() {
+		return
+	}
+	m.held.Add(1)
+	n0 := st.removes.Load()
+	for t0 := time.Now(); time.Since(t0) < missHold; {
+		if st.removes.Load() > n0 {
+			m.landedAfterRm.Add(1)
+			return
+		}
+		time.Sleep(40 * time.Microsecond)
+	}
 }
 
 // report defers a direct (non-porcupine) violation of call c to judge, which adds the
@@ -454,6 +497,26 @@ func runStoreHistory(root string, job jobSpec) *histResult {
 			}
 		}
 	}
+	var miss *missCtl
+	switch job.Mode {
+	case "queue":
+		// a sync queue: longer pauses around the directory creation of a receive
+		var qn atomic.Uint64
+		plan.Yield = func(c inject.Call) {
+			jit(c)
+			if c.Layer == "vfs" && c.Op == "MkdirAll" {
+				if n := qn.Add(1); (n*2654435761>>7)%8 < 3 {
+					time.Sleep(time.Duration(100+n%5*80) * time.Microsecond)
+				}
+			}
+		}
+	case "cachemiss":
+		miss = &missCtl{st: map[string]*missState{}}
+		plan.Yield = func(c inject.Call) {
+			jit(c)
+			miss.yield(c)
+		}
+	}
 	env := &sto.Env{Dir: dir, Plan: plan}
 	var b *sto.Built
 	lb, local, err := buildLocal(dir, plan, job.Spec)
@@ -478,7 +541,7 @@ func runStoreHistory(root string, job jobSpec) *histResult {
 		slowLeaf.Store(b.Leaves[int(job.Seed&0xffff)%len(b.Leaves)].Name)
 	}
 
-	sr := &storeRun{job: job, res: res, S: b.S, clk: &clock{}, label: job.Label, idx: map[blob.Ref]int{}, yield: jit}
+	sr := &storeRun{job: job, res: res, S: b.S, clk: &clock{}, label: job.Label, idx: map[blob.Ref]int{}, yield: jit, miss: miss}
 	if sf, ok := b.S.(blob.SubFetcher); ok {
 		sr.sub = sf
 	}
@@ -557,6 +620,25 @@ func runStoreHistory(root string, job jobSpec) *histResult {
 			}
 		}
 		res.Events = append(res.Events, "own-blobs-preloaded-on-every-replica")
+	}
+
+	if job.Mode == "cachemiss" {
+		// the own blobs start out on the origin only: the owner's first fetch misses the cache
+		if b.Preload == nil {
+			res.Inconclusive = append(res.Inconclusive, fmt.Sprintf("cachemiss mode needs a store that can be pre-loaded below its cache, %s cannot", job.Spec))
+			return res
+		}
+		var pre []sto.Blob
+		for k := sr.own0; k < len(sr.keys); k++ {
+			pre = append(pre, sr.keys[k])
+			initial[k] = true
+			miss.st[sr.keys[k].Ref.String()] = &missState{}
+		}
+		if err := b.Preload(pre); err != nil {
+			res.Inconclusive = append(res.Inconclusive, fmt.Sprintf("preload origin of %s: %v", job.Spec, err))
+			return res
+		}
+		res.Events = append(res.Events, "own-blobs-preloaded-below-the-cache")
 	}
 
 	canRemove := b.Caps.Remove
@@ -649,7 +731,18 @@ func runStoreHistory(root string, job jobSpec) *histResult {
 			defer func() { calls[cl] = mine }()
 			do := func(c *call) {
 				mine = append(mine, c)
+				var ms *missState
+				if sr.miss != nil && len(c.Keys) == 1 && c.Keys[0] >= sr.own0 {
+					ms = sr.miss.st[sr.keys[c.Keys[0]].Ref.String()]
+				}
+				if ms != nil && c.lead {
+					ms.lead.Store(true)
+				}
 				sr.exec(c)
+				if ms != nil && c.Op == "remove" {
+					ms.removes.Add(1)
+					ms.lead.Store(false)
+				}
 			}
 			var script []*call
 			if cl < job.Owners {
@@ -675,17 +768,25 @@ func runStoreHistory(root string, job jobSpec) *histResult {
 				}
 				if len(script) > 0 && crng.Intn(100) < 35 {
 					// a write on an own blob and the read that follows it, back to back
+					// (a lead fetch, the remove that follows it and the reads after that)
+					glue := script[0].lead
 					do(script[0])
 					script = script[1:]
-					for len(script) > 0 && script[0].Op != "receive" && script[0].Op != "remove" {
+					for len(script) > 0 && (glue || (script[0].Op != "receive" && script[0].Op != "remove")) {
+						glue = script[0].lead
 						do(script[0])
 						script = script[1:]
 					}
 				}
+				if job.Mode == "queue" && crng.Intn(4) == 0 {
+					// the sync loop of a queue: list everything
+					do(&call{Client: cl, Op: "enumerate", Limit: 1000})
+				}
 				do(genOp(crng, cl))
 			}
-			for _, c := range script {
-				do(c)
+			for len(script) > 0 {
+				do(script[0])
+				script = script[1:]
 			}
 			for _, f := range myFill {
 				do(&call{Client: cl, Op: "receive", Keys: []int{f}})
@@ -745,6 +846,37 @@ func runStoreHistory(root string, job jobSpec) *histResult {
 	// ---- observed structure
 	if lb != nil && lb.vfsSteps != nil && lb.vfsSteps.Load() > 0 {
 		res.Events = append(res.Events, "vfs-step-yields")
+	}
+	if job.Mode == "queue" && lb != nil && lb.dirsRemoved != nil {
+		if n := lb.dirsRemoved.Load(); n > 0 {
+			res.Events = append(res.Events, "queue-empty-dir-removed-by-enumeration")
+			res.Ops["queue-dir-removed"] += int(n)
+		}
+		if n := lb.dirsRecreated.Load(); n > 0 {
+			res.Events = append(res.Events, "queue-receive-recreated-removed-dir")
+			res.Ops["queue-dir-recreated"] += int(n)
+		}
+	}
+	if miss != nil {
+		ownMiss := 0
+		for _, c := range plan.Log() {
+			if c.Layer == "pc-origin" && c.Op == "Fetch" && miss.st[c.Arg] != nil {
+				ownMiss++
+			}
+		}
+		if ownMiss > 0 {
+			res.Events = append(res.Events, "own-fetch-missed-the-cache")
+			res.Ops["own-fetch-cache-miss"] += ownMiss
+		}
+		if n := miss.held.Load(); n > 0 {
+			res.Events = append(res.Events, "cache-fill-held-for-the-owners-remove")
+			res.Ops["cache-fill-held"] += int(n)
+		}
+		if n := miss.landedAfterRm.Load(); n > 0 {
+			// only a fill that is not part of the fetch can get here
+			res.Events = append(res.Events, "cache-fill-landed-after-the-owners-remove")
+			res.Ops["cache-fill-after-remove"] += int(n)
+		}
 	}
 	if lb != nil && lb.kvName != "" && planSaw(plan, "CommitBatch") {
 		res.Events = append(res.Events, "ondisk-kv-yields-"+fmt.Sprint(job.Spec.P["meta"]))
@@ -901,6 +1033,9 @@ func (sr *storeRun) judge(calls [][]*call, initial map[int]bool) {
 		case porcupine.Unknown:
 			res.LinTimeouts++
 		case porcupine.Illegal:
+			if len(res.Viols) >= 12 {
+				continue // the history's report is full (histResult.viol drops the rest): skip the costly minimisation
+			}
 			min := minimize(presenceModel, ops)
 			var lines []string
 			for _, o := range min {
@@ -991,6 +1126,17 @@ func (sr *storeRun) ownScript(crng *rand.Rand, cl int, canRemove bool) []*call {
 			}
 		}
 		switch {
+		case job.Mode == "cachemiss":
+			// pre-loaded on the origin only: the fetch takes the miss path, the remove follows it
+			// directly, then the reads; afterwards the usual cycles (the tiny LRU evicts most
+			// blobs right after their receive, so the later fetches miss as well)
+			q = append(q, &call{Client: cl, Op: "fetch", Keys: []int{k}, lead: true})
+			w("remove")
+			for rep := 0; rep < 2; rep++ {
+				w("receive")
+				q = append(q, &call{Client: cl, Op: "fetch", Keys: []int{k}, lead: true})
+				w("remove")
+			}
 		case job.Mode == "ackearly":
 			q = append(q, read(k)) // pre-loaded
 			w("remove")
@@ -1012,8 +1158,17 @@ func (sr *storeRun) ownScript(crng *rand.Rand, cl int, canRemove bool) []*call {
 		var rest [][]*call
 		for _, q := range seqs {
 			n := 1
+			if q[0].lead {
+				n = 2 // the remove that directly follows a lead fetch
+			}
 			for n < len(q) && q[n].Op != "receive" && q[n].Op != "remove" {
+				if q[n].lead {
+					n++
+				}
 				n++
+			}
+			if n > len(q) {
+				n = len(q)
 			}
 			out = append(out, q[:n]...)
 			if n < len(q) {
